@@ -43,7 +43,7 @@ def cases(draw):
     xml = draw(gen_xml.documents(astral='no_astral_strings' not in gen_xpath.FLAGS))
     return {'xml': xml, 'expr': e['expr'], 'op': op, 'ntok': e['ntok'], 'ctx': draw(st.integers(0, 80)),
             'ctxlist': draw(st.one_of(st.just([]), st.lists(st.integers(0, 80), max_size=4))),
-            'vars': draw(gen_xpath.bindings()), 'docform': draw(st.sampled_from(['native', 'native', 'xerces']))}
+            'vars': draw(gen_xpath.bindings()), 'docform': draw(st.sampled_from(['native', 'native', 'xerces'])), 'prior': draw(xpcase.priors())}
 
 
 def strategy(ctx):
@@ -71,6 +71,7 @@ def check(ctx, case):
     classes = ['op:' + op, 'type:' + (r.gets('g.type') or 'error')]
     for o in 'gbnscl':
         classes.append('cell:%s/%s' % (op, o))
+    classes.append('prior:%d' % len(case.get('prior') or []))
     ctx.note({'x': case['xml'], 'e': expr, 'c': case['ctx'], 'l': case.get('ctxlist')}, True, classes,
              sample_text={'expr': expr, 'xml': case['xml'][:200], 'ctx': prep.ctx.key, 'type': r.gets('g.type')})
     feats = sorted(expr_features(expr))
